@@ -133,3 +133,48 @@ vpn_number(N, r(N, C1, C2, C3)) :-
     vpn_outcome(( number_chars(N, Chars), vpn_outcome(number_chars(B2, Chars), B2, RB2) ), t(Chars, RB2), C2),
     vpn_outcome(( write_term_to_chars(N, [quoted(true)], W), append(W, " .", W1),
                   vpn_outcome(read_term_from_chars(W1, B3, []), B3, RB3) ), t(W, RB3), C3).
+
+% ---------------------------------------------------------------------------
+% C45 helpers. vpr_read(+Src, +Codes, +OptSpec, +Pre, -R)
+%   Src: chars | file3(Path) | file2(Path); OptSpec: list of v / n / s (order of the options);
+%   Pre: none | vars(N) | names(ListOfNameCodeLists); R: ok(r(T,Vs,VNs,Ss)) | failed | ex(Ball)
+vpr_read(Src, Codes, OptSpec, Pre, R) :-
+    vpr_options(OptSpec, Vs, VNs, Ss, Opts),
+    vpr_prebind(Pre, Vs, VNs),
+    vpr_goal(Src, Codes, T, Opts, G),
+    vpn_outcome(G, r(T, Vs, VNs, Ss), R).
+
+vpr_options([], _, _, _, []).
+vpr_options([O|Os], Vs, VNs, Ss, [Opt|Opts]) :-
+    (   O == v -> Opt = variables(Vs)
+    ;   O == n -> Opt = variable_names(VNs)
+    ;   Opt = singletons(Ss)
+    ),
+    vpr_options(Os, Vs, VNs, Ss, Opts).
+
+vpr_prebind(none, _, _).
+vpr_prebind(vars(N), Vs, _) :- length(Vs, N).
+vpr_prebind(names(Ns), _, VNs) :- vpr_names(Ns, VNs).
+
+vpr_names([], []).
+vpr_names([Cs|Css], [(N = _)|Rest]) :- atom_codes(N, Cs), vpr_names(Css, Rest).
+
+vpr_goal(chars, Codes, T, Opts, read_term_from_chars(Chars, T, Opts)) :-
+    vp_codes_chars(Codes, Chars).
+vpr_goal(file3(F), _, T, Opts, vpr_file3(F, T, Opts)).
+vpr_goal(file2(F), _, T, Opts, vpr_file2(F, T, Opts)).
+
+vpr_file3(F, T, Opts) :-
+    open(F, read, S),
+    catch(( read_term(S, T, Opts) -> Ok = true ; Ok = false ), E, ( close(S), throw(E) )),
+    close(S),
+    Ok == true.
+
+vpr_file2(F, T, Opts) :-
+    open(F, read, S),
+    current_input(Old),
+    set_input(S),
+    catch(( read_term(T, Opts) -> Ok = true ; Ok = false ), E, ( set_input(Old), close(S), throw(E) )),
+    set_input(Old),
+    close(S),
+    Ok == true.
